@@ -9,6 +9,7 @@ CHECK = {
         {"fn": "github.com/tochemey/goakt/v4/eventstream.vC20_membership", "opts": {"switch_on": "sync", "unwind": 6, "unwind_mode": "assert", "map_dedup": True}},
         {"fn": "github.com/tochemey/goakt/v4/eventstream.vC20_stream", "replay": "model-only", "opts": {"switch_on": "sync"}},
     ],
+    "opts_thorough": {"rounds": 5},
     "opts": {"rounds": 3, "unwind": 4, "unwind_mode": "assume", "switch_on": "all"},
     "explanation": "internal/queue.Queue.Enqueue/Dequeue/Length/getItem/releaseItem executed symbolically under solver-chosen interleavings",
     "bounds": {"threads": "2 producers (2+1 events), 1 consumer (3 dequeues)", "rounds": 3, "CAS retry loops": "<= 3 iterations (assumed)"},
